@@ -380,17 +380,43 @@ def merge_semantics(rep, rule, prog, cg):
         if mer is None:
             rep.anchor_missing(rule, 'prost::encoding::%s::merge' % m)
             continue
-        assigns = False
-        for bb in mer.bbs:
+        # blocks in which *value is overwritten: `*value = ..` (merge(wire_type, value: &mut T, buf, ctx)) or, for the
+        # byte containers, the replacing calls
+        events = set()
+        for bi, bb in enumerate(mer.bbs):
             for st in bb['st']:
                 p = st.get('p')
-                if p and p['p'] and p['p'][0] == '*' and p['l'] == 2:   # merge(wire_type, value: &mut T, buf, ctx): *value = ..
-                    assigns = True
-        calls = {cs.name for cs in mer.calls()}
-        if assigns or (m == 'bytes' and ({'replace_with'} & calls or 'merge_one_copy' in calls or 'copy_to_bytes' in calls)):
-            rep.ok(rule, key, 'the decoded value overwrites *value (last occurrence wins)', mer.loc())
-        else:
+                if p and p['p'] and p['p'][0] == '*' and p['l'] == 2:
+                    events.add(bi)
+        def from_value(e):
+            from mirlib import subexprs as _sub
+            return any(x and x[0] == 'arg' and x[1] == 2 for x in _sub(e))
+        for cs in mer.calls():
+            # a replacing call counts only when it is applied to (something borrowed from) `value` itself
+            if cs.name in ('replace_with', 'merge_one_copy', 'merge', 'clear') and m in ('bytes', 'string', 'faststr') and any(from_value(a) for a in cs.args()):
+                events.add(cs.bb)
+        # every way to an Ok result passes such a block (an assignment under a condition lets an earlier occurrence survive)
+        import skippers
+        oks = set(skippers._ok_exit_blocks(mer))
+        succ = mer.cfg[0]
+        seen, st, free = {0}, [0], None
+        while st:
+            x = st.pop()
+            if x in events:
+                continue
+            if x in oks:
+                free = x
+                break
+            for y in succ[x]:
+                if y not in seen:
+                    seen.add(y)
+                    st.append(y)
+        if events and oks and free is None:
+            rep.ok(rule, key, 'the decoded value overwrites *value on every Ok path (last occurrence wins)', mer.loc())
+        elif not events:
             rep.bad(rule, key, mer.loc(), 'prost %s::merge does not overwrite *value: a later occurrence of a singular field must replace the earlier one' % m)
+        else:
+            rep.bad(rule, key, mer.loc(mer.bbs[free]['t'].get('ln') if free is not None else None), 'prost %s::merge can return Ok without overwriting *value (the assignment is conditional): a later occurrence of a singular field must replace the earlier one whatever its value' % m)
         mr = fns.get('merge_repeated')
         key = '%s|%s::merge_repeated appends' % (rule, m)
         if mr is None:
